@@ -91,6 +91,15 @@ CHECKS = {
         note='Lean kernel + standard axioms; the identifiability test (tools/props/c20.py) is conservative for 16-term types (only full-S standards counted); '
              'nothing is asserted for sets with enough equations that do not determine the terms.',
         ref='DESIGN.md §6 C20'),
+    'C16': dict(
+        technique='Lean 4 proof on a hand model of the two handle tables + lock-step correspondence run + abstract name/handle table oracle driven interactively',
+        text='Calibration table: add returns the index at which the calibration sits and which find then returns, adding an existing name replaces in place, '
+             'every other slot is untouched, delete empties exactly one slot, get_calibration_end is one past the highest live index. Parameter table: the slot the '
+             'allocator hands out was free (handles unique while live), other slots untouched, match/open/short exist from the start and deleting them changes nothing, '
+             'a refused delete changes nothing. Interactive random histories (deleted, reused, predefined, invalid handles; several vnacal_new_t; calibrations built from '
+             'handles deleted while in use must still correct a device) are checked against an abstract table and the model answers every line it models identically.',
+        note='Lean kernel + standard axioms; Model/CalTable.lean hand-written (the first_free invariant of the C is a hypothesis of alloc_fresh); numerics of solve are not part of this model.',
+        ref='DESIGN.md §6 C16'),
 }
 PENDING = {}
 ALL = ['C%02d' % i for i in range(1, 21)]
